@@ -318,11 +318,20 @@ def silent_start(ctx, fi):
         changed = True
   scopes = [fn] + [d for d in ast.walk(fn) if isinstance(d, ast.FunctionDef) and d is not fn]
   seen = set()
+  # "not sounding" may be absence from a mapping or a sentinel value in an array: the values pitch_start_step[...] is compared with
+  sentinels = set()
+  for c_ in ast.walk(fn):
+    if isinstance(c_, ast.Compare) and len(c_.ops) == 1 and isinstance(c_.ops[0], (ast.Eq, ast.NotEq)):
+      for a_, b_ in ((c_.left, c_.comparators[0]), (c_.comparators[0], c_.left)):
+        if isinstance(a_, ast.Subscript) and norm_text(a_.value) == 'pitch_start_step':
+          sentinels.add(norm_text(b_))
   for sc in scopes[1:] + scopes[:1]:
     for s in U.walk_stmts(sc):
       if id(s) in seen or not (isinstance(s, ast.Assign) and len(s.targets) == 1 and isinstance(s.targets[0], ast.Subscript) and norm_text(s.targets[0].value) == 'pitch_start_step'):
         continue
       seen.add(id(s))
+      if norm_text(s.value) in sentinels:
+        continue          # the store that marks the pitch as silent again, not a start
       conds = [(U.expand_locals(sc, t, at=s), p) for t, p in U.path_conditions(sc, s)]
       flat = []
       for t, p in conds:      # a temporary may expand to a conjunction
@@ -334,10 +343,26 @@ def silent_start(ctx, fi):
           flat.append((t, p))
       conds = flat
       key = norm_text(s.targets[0].slice)
-      sounding = any(isinstance(t, ast.Compare) and len(t.ops) == 1 and norm_text(t.comparators[0]) == 'pitch_start_step' and norm_text(t.left) == key and
-                     ((isinstance(t.ops[0], ast.In) and pol) or (isinstance(t.ops[0], ast.NotIn) and not pol)) for t, pol in conds)
+      def member(t, pol):
+        """True: the condition says the pitch is sounding; False: it says it is silent; None: it says nothing about it."""
+        if not (isinstance(t, ast.Compare) and len(t.ops) == 1):
+          return None
+        if norm_text(t.comparators[0]) == 'pitch_start_step' and norm_text(t.left) == key and isinstance(t.ops[0], (ast.In, ast.NotIn)):
+          return isinstance(t.ops[0], ast.In) == pol
+        for a_, b_ in ((t.left, t.comparators[0]), (t.comparators[0], t.left)):
+          if isinstance(a_, ast.Subscript) and norm_text(a_.value) == 'pitch_start_step' and norm_text(a_.slice) == key and norm_text(b_) in sentinels and \
+              isinstance(t.ops[0], (ast.Eq, ast.NotEq)):
+            return isinstance(t.ops[0], ast.NotEq) == pol
+        return None
+      said = [m_ for m_ in (member(t, pol) for t, pol in conds) if m_ is not None]
+      sounding = any(said)
       edges = [t for t, _p in conds if edge(t) and not (isinstance(t, ast.Compare) and isinstance(t.ops[0], (ast.Is, ast.IsNot)))]
       ok = sounding or not edges
+      # nothing on the path excludes a silent pitch: the start applies to it (located) - unless the path tests pitch_start_step in a form that is not recognised
+      if not ok and not said and any('pitch_start_step' in norm_text(t) for t, _p in conds):
+        why = 'cannot classify: the start %s is guarded by a previous-frame quantity, and its path tests pitch_start_step in a form that does not say whether the pitch is sounding' % norm_text(s)[:60]
+        ctx.ob('DEC/silent-pitch-start', fi, s, False, why, construct='start condition of a silent pitch', unknown=why)
+        continue
       ctx.ob('DEC/silent-pitch-start', fi, s, ok, 'a %s pitch starts a note %s' % ('sounding' if sounding else 'silent', 'on a fresh onset' if edges else 'without looking at the previous frame') if ok else
              'a pitch that is not known to be sounding starts a note only if %s, a quantity derived from the previous frame\'s onset: a predicted onset that lasts several frames does not '
              'start a note on a pitch silenced in its earlier frame' % ' and '.join(norm_text(t) for t in edges), construct='start condition of a silent pitch', definite=True)
